@@ -523,6 +523,107 @@ pub fn run(ctx: &Ctx) -> i32 {
             check_tuple(&ins, b, ev);
             ev.count("cov:run-structured-tuples");
         }
+        // very many streams in one operation (more than 2^16): stream i holds a key of its own, some shared keys and a key shared
+        // by all; judged through the raw OpBuilder against the definitions (union, intersection, symmetric difference, difference)
+        if shard == 1 % n {
+            let nstreams: usize = 66_000 + (ctx.seed as usize % 7) * 100;
+            let all_key = b"zz-in-every-stream".to_vec();
+            let files: Vec<Vec<u8>> = (0..nstreams)
+                .map(|i| {
+                    let mut b = raw::Builder::memory();
+                    let own = format!("k{:08}", i).into_bytes();
+                    let shared = format!("s{:05}", i % 1000).into_bytes();
+                    b.insert(&own, i as u64).unwrap();
+                    b.insert(&shared, 1).unwrap();
+                    b.insert(&all_key, 2).unwrap();
+                    b.into_inner().unwrap()
+                })
+                .collect();
+            let r = guard(|| -> Result<(), String> {
+                let fsts: Vec<Fst<&[u8]>> = files.iter().map(|b| Fst::new(&b[..]).unwrap()).collect();
+                // union: every own key once with exactly its stream, shared keys with nstreams/1000 (+-1) holders, the common key with all
+                let mut u = fsts.iter().collect::<raw::OpBuilder>().union();
+                let (mut own, mut shared, mut common) = (0usize, 0usize, 0usize);
+                let mut prev: Vec<u8> = vec![];
+                while let Some((k, ivs)) = u.next() {
+                    if !prev.is_empty() && k <= &prev[..] {
+                        return Err(format!("union over {} streams: keys not strictly ascending at {}", nstreams, crate::json::show_bytes(k)));
+                    }
+                    prev = k.to_vec();
+                    match k[0] {
+                        b'k' => {
+                            let i: usize = std::str::from_utf8(&k[1..]).unwrap().parse().unwrap();
+                            if ivs.len() != 1 || ivs[0].index != i || ivs[0].value != i as u64 {
+                                return Err(format!("union over {} streams: key {} carries {:?}, want exactly (index {}, value {})", nstreams, crate::json::show_bytes(k), ivs.iter().take(3).map(|v| (v.index, v.value)).collect::<Vec<_>>(), i, i));
+                            }
+                            own += 1;
+                        }
+                        b's' => {
+                            let r: usize = std::str::from_utf8(&k[1..]).unwrap().parse().unwrap();
+                            let want = (0..nstreams).filter(|i| i % 1000 == r).count();
+                            let mut idx: Vec<usize> = ivs.iter().map(|v| v.index).collect();
+                            idx.sort();
+                            idx.dedup();
+                            if ivs.len() != want || idx.len() != want || idx.iter().any(|i| i % 1000 != r) {
+                                return Err(format!("union over {} streams: shared key {} carries {} entries ({} distinct streams), want {}", nstreams, crate::json::show_bytes(k), ivs.len(), idx.len(), want));
+                            }
+                            shared += 1;
+                        }
+                        _ => {
+                            let mut idx: Vec<usize> = ivs.iter().map(|v| v.index).collect();
+                            idx.sort();
+                            idx.dedup();
+                            if k != &all_key[..] || idx.len() != nstreams || ivs.len() != nstreams {
+                                return Err(format!("union over {} streams: the key held by every stream carries {} entries from {} distinct streams", nstreams, ivs.len(), idx.len()));
+                            }
+                            common += 1;
+                        }
+                    }
+                }
+                if own != nstreams || shared != 1000 || common != 1 {
+                    return Err(format!("union over {} streams yields {} own, {} shared, {} common keys (want {}, 1000, 1)", nstreams, own, shared, common, nstreams));
+                }
+                let mut x = fsts.iter().collect::<raw::OpBuilder>().intersection();
+                let mut got: Vec<Vec<u8>> = vec![];
+                while let Some((k, ivs)) = x.next() {
+                    if ivs.len() != nstreams {
+                        return Err(format!("intersection over {} streams: {} entries on its key", nstreams, ivs.len()));
+                    }
+                    got.push(k.to_vec());
+                }
+                if got != vec![all_key.clone()] {
+                    return Err(format!("intersection over {} streams yields {} keys, want exactly the one key held by all", nstreams, got.len()));
+                }
+                // difference: stream 0 minus all others keeps only its own key
+                let mut d = fsts.iter().collect::<raw::OpBuilder>().difference();
+                let mut got: Vec<Vec<u8>> = vec![];
+                while let Some((k, _)) = d.next() {
+                    got.push(k.to_vec());
+                }
+                if got != vec![b"k00000000".to_vec()] {
+                    return Err(format!("difference over {} streams yields {:?}", nstreams, got.iter().map(|k| crate::json::show_bytes(k)).collect::<Vec<_>>()));
+                }
+                // symmetric difference: own keys (1 holder) always; shared keys iff an odd number of holders; common key iff nstreams is odd
+                let mut sd = fsts.iter().collect::<raw::OpBuilder>().symmetric_difference();
+                let mut n_sd = 0usize;
+                while let Some(_) = sd.next() {
+                    n_sd += 1;
+                }
+                let want_sd = nstreams + (0..1000).filter(|r| (0..nstreams).filter(|i| i % 1000 == *r).count() % 2 == 1).count() + nstreams % 2;
+                if n_sd != want_sd {
+                    return Err(format!("symmetric difference over {} streams yields {} keys, want {}", nstreams, n_sd, want_sd));
+                }
+                Ok(())
+            });
+            ev.evals(4);
+            ev.distinct_extra += 4;
+            ev.count("cov:operations-over-more-than-65536-streams");
+            match r {
+                Ok(Ok(())) => {}
+                Ok(Err(e)) => ev.violate("setop-mismatch", e, J::U(nstreams as u64)),
+                Err(p) => ev.violate("setop-panic", format!("operation over {} streams panicked: {}", nstreams, p), J::U(nstreams as u64)),
+            }
+        }
         ev.add("cov:extend-on-non-empty-builder", EXTEND_ON_NONEMPTY.with(|c| c.get()));
         // zero streams: union / symmetric difference of nothing is empty
         if shard == 0 {
@@ -540,7 +641,7 @@ pub fn run(ctx: &Ctx) -> i32 {
         ev,
         Spec {
             level: "exploration",
-            rule: "one evaluation = one (tuple of input streams, operation) run through raw::/map::/set::OpBuilder (add, push, from_iter, and Extend on builders that already hold streams, in rotation) and compared with the set-theoretic definition: emitted keys, ascending order, exactly-once, and per key the sorted multiset of (stream index, value) entries (difference: only (0, v0)); inputs: ALL k-tuples of subsets of a 4-string universe for k<=5 (quick) / 6-string universe for k<=3 (thorough), all k<=3 tuples again behind a 70-byte common key prefix, sampled k up to 13, stream kinds rotated over {whole FST, range() stream, range cutting an extra key, search(AlwaysMatch), search(Complement(Str)) cutting an extra key, user Streamer over a Vec}, the same FST twice, values chosen so equal keys carry equal and differing values, run-structured tuples (stretches of 1..100 keys held by one stream only, ended by keys shared with other streams under smaller/equal/larger values), random maps up to 10^3 (quick) / 10^5 (thorough) keys; plus is_disjoint/is_subset/is_superset on all ordered pairs of subsets with FST, range and user-stream arguments; non-trivial = every (tuple, op); distinct = by construction for the exhaustive part, by fingerprint for the sampled part",
+            rule: "one evaluation = one (tuple of input streams, operation) run through raw::/map::/set::OpBuilder (add, push, from_iter, and Extend on builders that already hold streams, in rotation) and compared with the set-theoretic definition: emitted keys, ascending order, exactly-once, and per key the sorted multiset of (stream index, value) entries (difference: only (0, v0)); inputs: ALL k-tuples of subsets of a 4-string universe for k<=5 (quick) / 6-string universe for k<=3 (thorough), all k<=3 tuples again behind a 70-byte common key prefix, sampled k up to 13, one operation set over more than 66000 streams (own, shared and common keys), stream kinds rotated over {whole FST, range() stream, range cutting an extra key, search(AlwaysMatch), search(Complement(Str)) cutting an extra key, user Streamer over a Vec}, the same FST twice, values chosen so equal keys carry equal and differing values, run-structured tuples (stretches of 1..100 keys held by one stream only, ended by keys shared with other streams under smaller/equal/larger values), random maps up to 10^3 (quick) / 10^5 (thorough) keys; plus is_disjoint/is_subset/is_superset on all ordered pairs of subsets with FST, range and user-stream arguments; non-trivial = every (tuple, op); distinct = by construction for the exhaustive part, by fingerprint for the sampled part",
             assumptions: vec!["order among IndexedValue entries of one key is unspecified (heap order) and therefore compared as a sorted multiset".into(), "zero-stream difference/intersection are outside the statement and not judged".into()],
             floors: vec![
                 ("cov:has-empty-stream", 100),
@@ -556,6 +657,7 @@ pub fn run(ctx: &Ctx) -> i32 {
                 ("cov:tuples-with-70-byte-common-prefix", 1000),
                 ("cov:k=9", 100),
                 ("cov:k=12", 100),
+                ("cov:operations-over-more-than-65536-streams", 1),
                 ("cov:many-whole-fsts-through-extend-or-collect", 1000),
                 ("cov:run-structured-tuples", 400),
                 ("cov:run-ended-by-shared-key", 1000),
